@@ -138,6 +138,13 @@ CLAIMS["C02"] = ("loop-carried def-use of the stream cursor and message payload 
     "pre-parsing) is explicitly outside static reach and not decided.",
     "DESIGN.md §3 C02")
 
+CLAIMS["C09"] = ("const evaluation of the time-source override with constant-edge pruning, provenance of the window-test time, who-may-call inventory of libsystemd positioning calls over the call graph, decision-path classification of every Done return of next_common, rendering dispatch table",
+    "Static necessary-condition check of the journal reader: entry instant = journal receive time and bounds converted as instants; libsystemd "
+    "only seeks in analyze (to the --dt-after bound) and advances once per entry, never backwards; next_common returns Done only at journal "
+    "end or on the inclusive window's AfterRange verdict; all ten renderings reach their own renderer. Does not decide equality with "
+    "journalctl output.",
+    "DESIGN.md §3 C09")
+
 NA_REASON = {}
 
 checks = []
